@@ -22,13 +22,15 @@ class MatchResult:
         }
 
 class InwardRange:
-    __slots__ = ('start', 'end', 'delimiter', 'first_child', 'body_end')
+    __slots__ = ('start', 'end', 'delimiter', 'first_child', 'body_start', 'body_end')
 
     def __init__(self, start: int, end: int, delimiter: int):
         self.start = start
         self.end = end
         self.delimiter = delimiter
         self.first_child = None
+        self.body_start = delimiter + 1
+        "Start of inner content: after block’s opening brace, or where property value starts"
         self.body_end = end
         "End of inner content: where block’s closing brace or property value ends"
 
@@ -140,6 +142,7 @@ def balanced_inward(source: str, pos: int) -> list:
             r.start = start
             r.end = end
             r.delimiter = delimiter
+            r.body_start = delimiter + 1
             r.body_end = end
             return r
 
@@ -182,7 +185,7 @@ def balanced_inward(source: str, pos: int) -> list:
                 while r.first_child:
                     child = r.first_child
 
-                    inner = inner_range(source, child.delimiter + 1, child.body_end)
+                    inner = inner_range(source, child.body_start, child.body_end)
                     push(result, (child.start, child.end))
                     if inner:
                         push(result, inner)
@@ -218,7 +221,9 @@ def balanced_inward(source: str, pos: int) -> list:
                     # First child is an expected property name, update its range
                     # to include property value
                     # (a value closed by `}` has no terminator of its own)
+                    # (a comment between colon and value is not a part of value)
                     parent.first_child.end = prop_end
+                    parent.first_child.body_start = start
                     parent.first_child.body_end = end
 
                 release_pending()
